@@ -62,9 +62,10 @@ CLAIMED = {
             "at each level the velocity-level error routine takes kinematics of exactly the constrained bodies/mobilizers to which the matching addIn...Forces routine applies multiplier forces (necessary for G' = transpose of G); "
             "each of the seven constraint-matrix builders uses the row count, row segment and per-constraint routine of one level; frame adjacency of every parseable rotation/transform product in the constraint equations. "
             "That verr really is d/dt perr, the bias terms, signs and magnitudes are numerical and NOT decided."),
-    "C08": ("GUARD rule over the natural loops of SimbodyMatterSubsystemRep that walk the constraint set (isConstraintDisabled on the loop variable before any use, or delegation to callees with a verified entry guard)",
-            "Static decision of ONE clause of C08 only, 'disabled constraints have no effect on any result' (DESIGN section 3): every constraint loop that computes with a State skips disabled constraints or calls only self-guarding callees; "
-            "six loops visit every declared constraint on purpose (tabled with reasons). Constraint satisfaction, the multiplier solve, Newton's law and constraint power are numerical and NOT decided."),
+    "C08": ("GUARD rule over the natural loops of SimbodyMatterSubsystemRep that walk the constraint set (isConstraintDisabled on the loop variable before any use, or delegation to callees with a verified entry guard); POWER pairing rule on Constraint::calcPower (force entry / velocity of the same constrained body, both in Ground; mobility force / u of the same constrained u)",
+            "Static decision of TWO clauses of C08 (DESIGN section 3): 'disabled constraints have no effect on any result' -- every constraint loop that computes with a State skips disabled constraints or calls only self-guarding callees (six loops visit every declared constraint on purpose, tabled with reasons) -- and the structure of 'reported constraint power': "
+            "calcPower is minus the sum over the whole force arrays of F_G[b] . V_G(body of b) and f[c] * u[u-index of c], with the Ground-frame velocity accessor (never an Ancestor-frame ConstraintImpl accessor) and the same index on both factors. "
+            "Constraint satisfaction, the multiplier solve, Newton's law and that the power of a workless constraint actually vanishes are numerical and NOT decided."),
     "C09": ("ACCURACY (success only through a fresh `norm <= required accuracy` test; weighted-norm REACHDEF), QUATS (normalisation must-pass after q changes), PRESCRIBED (update provenance through unpackFree into a zeroed vector, free / prescribed+zero list discipline, Free-only normalisation), DISPATCH (accuracy -> options, prescribe/realize/project order, pass-through)",
             "Static decision of the structural clauses of C09 (DESIGN section 3): projectQ / projectU report success only on paths where, after the last change of the state, the error norm was recomputed and tested against opts.getRequiredAccuracy(), the constraint-error norm being the documented weighted RMS / infinity norm; "
             "quaternions are normalised after every change of q before success; prescribed coordinates are not touched (updates come from the free-variable solution through unpackFreeQ/U, which address only the free index list; quaternion normalisation skips non-Free mobilizers); "
